@@ -72,6 +72,14 @@ static inline int nd_native(int family, struct sockaddr_storage *ss) {
   }
 }
 
+/* a pboolean argument with the given truth value: ANY int whose truthiness is `want` (pboolean is a plain
+ * int; every non-zero value is a legitimate TRUE, e.g. `flags & 0x2`) */
+static inline pboolean nd_pbool(_Bool want) {
+  int v = ND_INT();
+  VASSUME((v != 0) == want);
+  return (pboolean) v;
+}
+
 /* byte-wise equality of two buffers of n <= VS_ALEN bytes, decided at ONE symbolic position (the solver
  * ranges over all positions): same verdict as a comparison loop, much smaller formula */
 static inline _Bool same_bytes(const void *a, const void *b, int n) {
